@@ -415,6 +415,12 @@ func (fe *FuncEnc) addOblig(o *Oblig, err error) {
 	o.Fn = fe.eng.displayName(fe.fn)
 	o.prel = fe.pre
 	o.nline = len(fe.pre.body)
+	o.fn = fe.fn
+	o.heapNames = fe.heapSorts
+	o.sorts = fe.sorts
+	if fe.top != nil {
+		o.paramTerms = fe.top.params
+	}
 	fe.obls = append(fe.obls, o)
 }
 
